@@ -860,8 +860,12 @@ def _work(case):
     """everything that needs JAX for one case (runs in a forked worker): driver line, dense matrices, oracle"""
     import warnings
     warnings.filterwarnings("ignore")
+    import time
+    t0 = time.process_time()
     with precision(case):
-        return _work1(case)
+        res = _work1(case)
+    res["secs"] = time.process_time() - t0
+    return res
 
 
 def _work1(case):
@@ -908,16 +912,16 @@ def run(ctx):
     for k in G.KINDS:
         for _ in range(ctx.n(2, 10)):
             cases.append(gen_plain(rng, k))
-    for _ in range(ctx.n(10, 100)):
+    for _ in range(ctx.n(6, 100)):
         cases.append(gen_plain(rng))
-    for _ in range(ctx.n(20, 180)):
+    for _ in range(ctx.n(16, 180)):
         cases.append(gen_composed(rng))
     # round 2: complex-valued forward models in front of every likelihood that takes complex data, every stage type
     for k in ("gaussian", "studentt", "vcgauss"):
         for ct in G.CTYPES:
             for _ in range(ctx.n(1, 4)):
                 cases.append(gen_ccomposed(rng, kinds=[k], ctype=ct, cplx_data=True, freeze=False))
-    for _ in range(ctx.n(8, 80)):
+    for _ in range(ctx.n(6, 80)):
         cases.append(gen_ccomposed(rng))
     # dense Hermitian (non-real) noise operators: plain and behind a complex forward model (oracle only)
     for _ in range(ctx.n(1, 6)):
@@ -929,8 +933,8 @@ def run(ctx):
         cases.append(dict(op="lh", terms=[gen_herm_term(rng, "studentt", cplx=rng.random() < 0.5, dof_per_element=True)]))
     # float32: the same generators, run in workers with jax's default configuration (x64 off)
     cases32 = [gen_plain(rng, k) for k in G.KINDS for _ in range(ctx.n(1, 4))]
-    cases32 += [gen_composed(rng) for _ in range(ctx.n(4, 30))]
-    cases32 += [gen_ccomposed(rng) for _ in range(ctx.n(5, 30))]
+    cases32 += [gen_composed(rng) for _ in range(ctx.n(3, 30))]
+    cases32 += [gen_ccomposed(rng) for _ in range(ctx.n(4, 30))]
     for c in cases32:
         c["f32"] = True
     n64 = len(cases)
@@ -941,6 +945,12 @@ def run(ctx):
         st_async = pool.apply_async(_selftest, (0,))
         results = pool.map(_work, cases, chunksize=1)
         st = st_async.get()
+    if os.environ.get("C12_TIMING"):      # development aid only (never part of the evidence: not deterministic)
+        import sys
+        tot = sum(r.get("secs", 0.0) for r in results)
+        top = sorted(((r.get("secs", 0.0), "+".join(t["kind"] for t in c["terms"]) + ("/f32" if c.get("f32") else ""))
+                      for c, r in zip(cases, results)), reverse=True)[:12]
+        print(f"C12_TIMING total worker cpu {tot:.0f}s; slowest: " + ", ".join(f"{k}={v:.0f}s" for v, k in top), file=sys.stderr)
     ctx.extra["cases_float64"], ctx.extra["cases_float32"] = n64, len(cases32)
     ctx.extra["noise_float64"] = max([r.get("noise", 0.0) for r in results[:n64]] + [0.0])
     ctx.extra["noise_float32"] = max([r.get("noise", 0.0) for r in results[n64:]] + [0.0])
